@@ -4,6 +4,8 @@ package main
 // handed to the solvers is quantifier free (see DESIGN 2.4).
 
 import (
+	"fmt"
+	"os"
 	"sort"
 	"strings"
 )
@@ -216,7 +218,7 @@ func (ic *instCtx) candidates(body, k *Term) []*Term {
 				// address-indexed ghost sets (allocation maps) are queried at the addresses of the memory they describe
 				switch f {
 				case "RA":
-					if g == nil {
+					if g == nil && os.Getenv("GOVC_NO_RS") == "" {
 						for _, c := range ic.rangeStarts {
 							add(c)
 						}
@@ -280,7 +282,7 @@ func (ic *instCtx) candidates(body, k *Term) []*Term {
 		}
 	}
 	walk(body)
-	if len(out) == 0 && k.Sort == BV64 {
+	if len(out) == 0 && k.Sort == BV64 && os.Getenv("GOVC_NO_PR") == "" {
 		// pure address-range statement (no memory access under the binder): instantiate at the known raw addresses
 		isRange := false
 		v2 := map[*Term]bool{}
@@ -308,14 +310,17 @@ func (ic *instCtx) candidates(body, k *Term) []*Term {
 			}
 		}
 	}
-	for _, s := range ic.skolems {
-		add(s)
-	}
 	if len(out) > 300 {
 		out = out[:300]
 	}
+	// skolem constants of the goal are the most relevant instances: never cut them off
+	for _, s := range ic.skolems {
+		add(s)
+	}
 	return out
 }
+
+var instDbg map[*Term]int
 
 // rewrite eliminates quantifiers from hypothesis t (pol=true: t is asserted; pol=false: t is under a negation).
 func (ic *instCtx) rewrite(t *Term, pol bool, qc map[*Term]bool, depth int) *Term {
@@ -376,9 +381,20 @@ func (ic *instCtx) rewrite(t *Term, pol bool, qc map[*Term]bool, depth int) *Ter
 		if len(t.Bound) == 1 {
 			k := t.Bound[0]
 			cands := ic.candidates(t.Args[0], k)
+			if instDbg != nil {
+				instDbg[t] += len(cands)
+			}
 			var insts []*Term
 			for _, c := range cands {
-				inst := tb.Subst(t.Args[0], map[*Term]*Term{k: c})
+				ck := [2]*Term{t, c}
+				inst, ok := ic.e.instCache[ck]
+				if !ok {
+					inst = tb.Subst(t.Args[0], map[*Term]*Term{k: c})
+					if ic.e.instCache == nil {
+						ic.e.instCache = map[[2]*Term]*Term{}
+					}
+					ic.e.instCache[ck] = inst
+				}
 				insts = append(insts, ic.rewrite(inst, pol, qc, depth+1))
 			}
 			if pol {
@@ -493,6 +509,9 @@ func (e *Engine) propagateEqualities(hyps []*Term) []*Term {
 // Prepare returns quantifier-free hypotheses (the negated goal included) for obligation o.
 func (e *Engine) PrepareQF(o *Obligation) []*Term {
 	tb := e.tb
+	if os.Getenv("GOVC_INSTDBG") != "" && instDbg == nil {
+		instDbg = map[*Term]int{}
+	}
 	ic := &instCtx{e: e, fam: map[string][]*Term{}, mulPool: map[string][]*Term{}, pool: map[*Sort][]*Term{}, appArgs: map[string][][]*Term{}, seenIdx: map[*Term]bool{}, skCache: map[*Term]*Term{}}
 	all := append([]*Term{}, o.Hyps...)
 	if o.Goal != nil && !o.Cover {
@@ -542,6 +561,25 @@ func (e *Engine) PrepareQF(o *Obligation) []*Term {
 			break
 		}
 		prevSize = size
+	}
+	if instDbg != nil {
+		type kv struct {
+			t *Term
+			n int
+		}
+		var l []kv
+		for t, n := range instDbg {
+			l = append(l, kv{t, n})
+		}
+		sort.Slice(l, func(i, j int) bool { return l[i].n > l[j].n })
+		for i := 0; i < len(l) && i < 6; i++ {
+			sh := tb.Show(l[i].t)
+			if len(sh) > 260 {
+				sh = sh[:260]
+			}
+			fmt.Fprintf(os.Stderr, "   inst %d x %s\n", l[i].n, sh)
+		}
+		instDbg = map[*Term]int{}
 	}
 	// deterministic order of pools is given by traversal order; nothing else to do
 	_ = sort.Strings
